@@ -122,7 +122,71 @@ func checkAccounting(e *drv.Env, when string) (*refdec.Accounting, *drv.Violatio
 	if info, _ := tx.Page(int(a.HWM)); info != nil {
 		return a, drv.Violf("%s: Tx.Page(hwm=%d) returned a page", when, a.HWM)
 	}
+	if v := checkBucketStats(tx, a, when); v != nil {
+		return a, v
+	}
 	return a, nil
+}
+
+// checkBucketStats compares Bucket.Stats() of every bucket (clean read transaction) with the space accounting
+// of the independent decoder: pages by kind, overflow pages, elements, buckets, inline buckets and bytes in use.
+func checkBucketStats(tx *bolt.Tx, a *refdec.Accounting, when string) *drv.Violation {
+	budget := 60 // Stats is recursive: bound the number of buckets queried per call
+	var walk func(b *bolt.Bucket, m *model.Bucket, path string) *drv.Violation
+	walk = func(b *bolt.Bucket, m *model.Bucket, path string) *drv.Violation {
+		if budget <= 0 {
+			return nil
+		}
+		budget--
+		want, buckets, inline := a.Subtree(m)
+		got := b.Stats()
+		type pair struct {
+			name      string
+			got, want int
+		}
+		for _, p := range []pair{
+			{"BranchPageN", got.BranchPageN, want.Branch}, {"BranchOverflowN", got.BranchOverflowN, want.BranchOverflow},
+			{"LeafPageN", got.LeafPageN, want.Leaf}, {"LeafOverflowN", got.LeafOverflowN, want.LeafOverflow},
+			{"KeyN", got.KeyN, want.Elements}, {"BucketN", got.BucketN, buckets}, {"InlineBucketN", got.InlineBucketN, inline},
+			{"BranchInuse", got.BranchInuse, want.BranchInuse}, {"LeafInuse", got.LeafInuse, want.LeafInuse}, {"InlineBucketInuse", got.InlineBucketInuse, want.InlineInuse},
+			{"BranchAlloc", got.BranchAlloc, (want.Branch + want.BranchOverflow) * tx.DB().Info().PageSize},
+			{"LeafAlloc", got.LeafAlloc, (want.Leaf + want.LeafOverflow) * tx.DB().Info().PageSize},
+		} {
+			if p.got != p.want {
+				return drv.Violf("%s: Bucket(%s).Stats().%s=%d, the independent decoder counts %d", when, path, p.name, p.got, p.want)
+			}
+		}
+		names := make([]string, 0, len(m.Sub))
+		for n := range m.Sub {
+			names = append(names, n)
+		}
+		sort.Strings(names)
+		for _, n := range names {
+			sb := b.Bucket([]byte(n))
+			if sb == nil {
+				return drv.Violf("%s: bucket %s/%q decoded from the file is not returned by Bucket()", when, path, n)
+			}
+			if v := walk(sb, m.Sub[n], path+"/"+fmt.Sprintf("%q", n)); v != nil {
+				return v
+			}
+		}
+		return nil
+	}
+	names := make([]string, 0, len(a.Tree.Sub))
+	for n := range a.Tree.Sub {
+		names = append(names, n)
+	}
+	sort.Strings(names)
+	for _, n := range names {
+		b := tx.Bucket([]byte(n))
+		if b == nil {
+			return drv.Violf("%s: top-level bucket %q decoded from the file is not returned by Tx.Bucket", when, n)
+		}
+		if v := walk(b, a.Tree.Sub[n], fmt.Sprintf("%q", n)); v != nil {
+			return v
+		}
+	}
+	return nil
 }
 
 func structLabels(e *drv.Env, a *refdec.Accounting) {
